@@ -24,7 +24,8 @@ RAW = {
         },
         "/users/{id}/posts": {
             "parameters": [{"name": "id", "in": "path", "required": True, "schema": {"type": "string"}}],
-            "get": {"responses": {"200": {"description": "ok"}}},
+            "get": {"parameters": [{"name": "expand", "in": "query", "required": False, "schema": {"type": "string"}}],
+                    "responses": {"200": {"description": "ok"}}},
             "post": {"responses": {"201": {"description": "ok"}}},
         },
         "/orders/{id}": {
@@ -63,16 +64,17 @@ def _setup() -> dict:
             req=requests.Request("GET", "http://127.0.0.1/").prepare(),
             Response=Response, Recorder=ScenarioRecorder, CheckContext=CheckContext, Transition=Transition,
             uaf=use_after_free, rna=ensure_resource_availability,
-            gen_meta=lambda: CaseMetadata(
+            gen_meta=lambda kinds=("path",): CaseMetadata(
                 generation=GenerationInfo(time=0.0, mode=GenerationMode.POSITIVE),
-                components={ComponentKind.PATH_PARAMETERS: ComponentInfo(mode=GenerationMode.POSITIVE)},
+                components={{"path": ComponentKind.PATH_PARAMETERS, "query": ComponentKind.QUERY}[k]: ComponentInfo(mode=GenerationMode.POSITIVE)
+                            for k in kinds},
                 phase=PhaseInfo.generate(),
             ),
         )
     return _state
 
 
-def observe(tree: list[dict], link: bool) -> tuple[bool, bool]:
+def observe(tree: list[dict], link: bool, extra: bool = False) -> tuple[bool, bool]:
     """Build the real recorder for `tree` and run both checks on its last node. Returns (uaf reported, rna reported)."""
     st = _setup()
     s = st["schema"]
@@ -84,6 +86,12 @@ def observe(tree: list[dict], link: bool) -> tuple[bool, bool]:
         kw = {} if n["kind"] == "POST users" else {"path_parameters": {"id": str(n["id"])}}
         if i == len(tree) - 1 and not link and kw:
             kw["meta"] = st["gen_meta"]()  # path parameters were generated, nothing overridden by a link
+        if i == len(tree) - 1 and n["kind"] == "GET user posts":
+            # the link supplies the path parameter only; the optional query parameter is either omitted (the link-derived case was
+            # built with an explicit empty query) or filled in by the generator (extra)
+            kw["query"] = {"expand": "1"} if extra else {}
+            if extra:
+                kw["meta"] = st["gen_meta"](("query",) if link else ("path", "query"))
         case = s[path][method].Case(**kw)
         cases.append(case)
         if n["parent"] == 0:
@@ -109,7 +117,7 @@ def observe(tree: list[dict], link: bool) -> tuple[bool, bool]:
 
 
 def _work(case: dict) -> tuple[bool, bool]:
-    return observe(case["tree"], case["link"])
+    return observe(case["tree"], case["link"], case.get("extra", False))
 
 
 def _short(tree: list[dict], link: bool) -> str:
@@ -136,7 +144,7 @@ def signature(case: dict, which: str, direction: str) -> str:
         if root_del:
             feats.append("root-delete")
     else:
-        feats = ["status-" + _status_class(n["status"]), "link" if case["link"] else "generated"]
+        feats = ["status-" + _status_class(n["status"]), "link" if case["link"] else "generated"] + (["extra-generated-optional"] if case.get("extra") else [])
     return "C18:%s:%s:%s" % (which, direction, "+".join(feats))
 
 
@@ -186,7 +194,7 @@ def run(ctx: Ctx) -> Outcome:
     k = 20000 if ctx.quick else 100000
     judged = [(d[0], (d[3], d[4])) for d in dis][:20000] + common.sample(rng, pool, k)
     obs_file = ctx.path("obs.json")
-    tlc.write_json(obs_file, [{"tree": c["tree"], "link": c["link"], "obsUaf": o[0], "obsRna": o[1]} for c, o in judged])
+    tlc.write_json(obs_file, [{"tree": c["tree"], "link": c["link"], "extra": c.get("extra", False), "obsUaf": o[0], "obsRna": o[1]} for c, o in judged])
     jres = tlc.require_ok(tlc.run_tlc("LifecycleJudge", "LifecycleJudge.cfg", env={"OBS_FILE": obs_file}, timeout=1800, workers=1), "judge")
     tlc_dis = {(p[1], p[2]) for p in jres.prints if isinstance(p, list) and p and p[0] == "DISAGREE"}
     py_dis = set()
@@ -202,7 +210,7 @@ def run(ctx: Ctx) -> Outcome:
         out.violations.append(Violation(
             signature(c, which, direction),
             "%s %s: spec=%s impl=%s for %s" % (which, direction, c[which], u if which == "uaf" else r, _short(c["tree"], c["link"])),
-            {"tree": c["tree"], "link": c["link"], "expected": {"uaf": c["uaf"], "rna_allowed": c["rna"]}},
+            {"tree": c["tree"], "link": c["link"], "extra": c.get("extra", False), "expected": {"uaf": c["uaf"], "rna_allowed": c["rna"]}},
         ))
     out.coverage = {
         "states": res.distinct,
@@ -232,7 +240,7 @@ def replay(ctx: Ctx, data: dict) -> Outcome:
     out = Outcome()
     if data.get("kind") == "spec":
         return out
-    u, r = observe(data["tree"], data["link"])
+    u, r = observe(data["tree"], data["link"], data.get("extra", False))
     exp = data["expected"]
     c = {"tree": data["tree"], "link": data["link"]}
     if u != exp["uaf"]:
@@ -247,7 +255,7 @@ def selftest(ctx: Ctx) -> bool:
     tree = [{"kind": "POST users", "id": 1, "status": 201, "parent": 0},
             {"kind": "DELETE user", "id": 1, "status": 204, "parent": 1},
             {"kind": "GET user", "id": 1, "status": 200, "parent": 2}]
-    good = {"tree": tree, "link": True, "obsUaf": True, "obsRna": False}
+    good = {"tree": tree, "link": True, "extra": False, "obsUaf": True, "obsRna": False}
     bad = dict(good, obsUaf=False)
     f = ctx.path("obs.json")
     tlc.write_json(f, [good, bad])
